@@ -1,4 +1,353 @@
-//! C15: not built yet.
-use crate::util::Ctx;
+//! C15 — valid schemas are internally consistent.
+//! Every `Valid<Schema>` reached (generated valid schemas, mutants that still validate, invalid
+//! schemas mutated until they validate, repo seeds) is checked clause by clause against the C15
+//! statement, directly on the public fields `schema_definition`, `types`, `directive_definitions`.
+//! Stream `c15.inv`: the abstract schema exported from the real `Schema` (validated or only built) is
+//! evaluated by the Lean invariant evaluators; the bits must equal this file's own evaluation.
+use crate::p14::random_valid;
+use crate::schemagen::*;
+use crate::util::*;
+use apollo_compiler::ast::Type;
+use apollo_compiler::schema::ExtendedType;
+use apollo_compiler::Schema;
+use std::collections::{BTreeMap, BTreeSet};
 
-pub fn run(_ctx: &mut Ctx) {}
+const BUILTIN_SCALARS: [&str; 5] = ["Int", "Float", "String", "Boolean", "ID"];
+
+fn is_input_kind(t: &ExtendedType) -> bool { matches!(t, ExtendedType::Scalar(_) | ExtendedType::Enum(_) | ExtendedType::InputObject(_)) }
+fn is_output_kind(t: &ExtendedType) -> bool { !matches!(t, ExtendedType::InputObject(_)) }
+
+fn implements_of(t: &ExtendedType) -> Vec<String> {
+    match t {
+        ExtendedType::Object(o) => o.implements_interfaces.iter().map(|c| c.name.to_string()).collect(),
+        ExtendedType::Interface(i) => i.implements_interfaces.iter().map(|c| c.name.to_string()).collect(),
+        _ => vec![],
+    }
+}
+
+type Fields = Vec<(String, Type, Vec<(String, Type, bool)>)>; // name, type, args(name, type, required)
+
+fn fields_of(t: &ExtendedType) -> Fields {
+    let m = match t { ExtendedType::Object(o) => &o.fields, ExtendedType::Interface(i) => &i.fields, _ => return vec![] };
+    m.iter().map(|(n, f)| (n.to_string(), f.ty.clone(), f.arguments.iter().map(|a| (a.name.to_string(), (*a.ty).clone(), a.ty.is_non_null() && a.default_value.is_none())).collect())).collect()
+}
+
+/// IsValidImplementationFieldType(fieldType, implementedFieldType), spec §3.6.1, on `ast::Type`
+fn covariant(s: &Schema, field: &Type, implemented: &Type) -> bool {
+    match (field, implemented) {
+        // 1. fieldType non-null: strip it, and strip implementedFieldType's non-null if present
+        (Type::NonNullNamed(f), Type::NonNullNamed(i)) | (Type::NonNullNamed(f), Type::Named(i)) => covariant(s, &Type::Named(f.clone()), &Type::Named(i.clone())),
+        (Type::NonNullList(f), Type::NonNullList(i)) | (Type::NonNullList(f), Type::List(i)) => covariant(s, &Type::List(f.clone()), &Type::List(i.clone())),
+        (Type::NonNullNamed(_), _) | (Type::NonNullList(_), _) => false,
+        // 2. both lists
+        (Type::List(f), Type::List(i)) => covariant(s, f, i),
+        // 3-5. same type, or member of the union / implementor of the interface
+        (Type::Named(f), Type::Named(i)) => {
+            if f == i { return true; }
+            match (s.types.get(f), s.types.get(i)) {
+                (Some(ExtendedType::Object(_)), Some(ExtendedType::Union(u))) => u.members.iter().any(|m| m.name == *f),
+                (Some(ft @ (ExtendedType::Object(_) | ExtendedType::Interface(_))), Some(ExtendedType::Interface(_))) => implements_of(ft).iter().any(|x| x == i.as_str()),
+                _ => false,
+            }
+        }
+        _ => false,
+    }
+}
+
+#[derive(Default, Debug)]
+pub struct Inv {
+    pub roots: bool,
+    pub impl_kind: bool,
+    pub trans: bool,
+    pub input: bool,
+    pub scalars: bool,
+    /// violated clauses (stable keys) with a detail
+    pub failures: Vec<(String, String)>,
+}
+
+pub fn referenced_names(s: &Schema) -> BTreeSet<String> {
+    let mut refs = BTreeSet::new();
+    for d in s.directive_definitions.values() { for a in &d.arguments { refs.insert(a.ty.inner_named_type().to_string()); } }
+    for t in s.types.values() {
+        for (_, ty, args) in fields_of(t) { refs.insert(ty.inner_named_type().to_string()); for (_, at, _) in args { refs.insert(at.inner_named_type().to_string()); } }
+        if let ExtendedType::InputObject(io) = t { for f in io.fields.values() { refs.insert(f.ty.inner_named_type().to_string()); } }
+    }
+    refs
+}
+
+/// every clause of the C15 statement, evaluated on the schema's public fields
+pub fn invariants(s: &Schema) -> Inv {
+    let mut inv = Inv::default();
+    let mut fail = |k: &str, d: String| inv.failures.push((k.to_string(), d));
+    // --- a query root; every root operation type is a distinct object type
+    let sd = &s.schema_definition;
+    let roots: Vec<String> = [&sd.query, &sd.mutation, &sd.subscription].iter().filter_map(|r| r.as_ref().map(|c| c.name.to_string())).collect();
+    let mut roots_ok = true;
+    if sd.query.is_none() { roots_ok = false; fail("query-root", "no query root".into()); }
+    for r in &roots {
+        if !matches!(s.types.get(r.as_str()), Some(ExtendedType::Object(_))) { roots_ok = false; fail("root-object-type", format!("root {r} is not an object type")); }
+    }
+    for i in 0..roots.len() { for j in 0..i { if roots[i] == roots[j] { roots_ok = false; fail("roots-distinct", format!("root type {} used twice", roots[i])); } } }
+    // --- referenced types exist with the right kind
+    for (tn, t) in &s.types {
+        for (fname, ty, args) in fields_of(t) {
+            match s.types.get(ty.inner_named_type()) { Some(k) if is_output_kind(k) => {} _ => fail("field-output-type", format!("{tn}.{fname}: {ty}")) }
+            for (an, at, _) in args {
+                match s.types.get(at.inner_named_type()) { Some(k) if is_input_kind(k) => {} _ => fail("argument-input-type", format!("{tn}.{fname}({an}: {at})")) }
+            }
+        }
+        if let ExtendedType::InputObject(io) = t {
+            for f in io.fields.values() {
+                match s.types.get(f.ty.inner_named_type()) { Some(k) if is_input_kind(k) => {} _ => fail("input-field-input-type", format!("{tn}.{}: {}", f.name, f.ty)) }
+            }
+        }
+        if let ExtendedType::Union(u) = t {
+            for m in &u.members { if !matches!(s.types.get(m.name.as_str()), Some(ExtendedType::Object(_))) { fail("union-member-object", format!("{tn} = {}", m.name)); } }
+        }
+    }
+    for d in s.directive_definitions.values() {
+        for a in &d.arguments {
+            match s.types.get(a.ty.inner_named_type()) { Some(k) if is_input_kind(k) => {} _ => fail("argument-input-type", format!("@{}({}: {})", d.name, a.name, a.ty)) }
+        }
+    }
+    // --- implements: interfaces only; contracts
+    let mut impl_kind = true;
+    let mut trans = true;
+    for (tn, t) in &s.types {
+        let declared = implements_of(t);
+        for i in &declared {
+            if !matches!(s.types.get(i.as_str()), Some(ExtendedType::Interface(_))) { impl_kind = false; fail("implements-interface", format!("{tn} implements {i}")); }
+            if matches!(t, ExtendedType::Interface(_)) && i == tn.as_str() { impl_kind = false; /* not a clause of the statement: bit only */ }
+        }
+        // transitive closure over interface definitions
+        let mut reach: BTreeSet<String> = BTreeSet::new();
+        let mut todo: Vec<String> = declared.clone();
+        while let Some(i) = todo.pop() {
+            if let Some(idef @ ExtendedType::Interface(_)) = s.types.get(i.as_str()) {
+                for j in implements_of(idef) { if reach.insert(j.clone()) { todo.push(j); } }
+            }
+        }
+        for j in &reach { if !declared.contains(j) { trans = false; fail("transitive-interface-contract", format!("{tn} does not declare {j}")); } }
+        // IsValidImplementation for each implemented interface
+        let mine = fields_of(t);
+        for i in &declared {
+            let Some(idef @ ExtendedType::Interface(_)) = s.types.get(i.as_str()) else { continue };
+            for (fname, ity, iargs) in fields_of(idef) {
+                let Some((_, fty, fargs)) = mine.iter().find(|f| f.0 == fname) else { fail("field-contract", format!("{tn} lacks {i}.{fname}")); continue };
+                if !covariant(s, fty, &ity) { fail("field-contract", format!("{tn}.{fname}: {fty} vs {i}.{fname}: {ity}")); }
+                for (an, at, _) in &iargs {
+                    match fargs.iter().find(|a| a.0 == *an) {
+                        None => fail("argument-contract", format!("{tn}.{fname} lacks argument {an} of {i}")),
+                        Some(a) => if a.1 != *at { fail("argument-contract", format!("{tn}.{fname}({an}: {}) vs {at}", a.1)) },
+                    }
+                }
+                for a in fargs { if a.2 && !iargs.iter().any(|x| x.0 == a.0) { fail("argument-contract", format!("{tn}.{fname} adds required argument {}", a.0)); } }
+            }
+        }
+    }
+    // --- no input object has a non-null cycle
+    let mut input_ok = true;
+    let edges: BTreeMap<String, Vec<String>> = s.types.iter().filter_map(|(n, t)| if let ExtendedType::InputObject(io) = t {
+        Some((n.to_string(), io.fields.values().filter_map(|f| if let Type::NonNullNamed(m) = &*f.ty { if matches!(s.types.get(m), Some(ExtendedType::InputObject(_))) { Some(m.to_string()) } else { None } } else { None }).collect()))
+    } else { None }).collect();
+    for start in edges.keys() {
+        let mut seen: BTreeSet<&String> = BTreeSet::new();
+        let mut todo: Vec<&String> = edges[start].iter().collect();
+        let mut cyc = false;
+        while let Some(n) = todo.pop() {
+            if n == start { cyc = true; break; }
+            if seen.insert(n) { todo.extend(edges[n].iter()); }
+        }
+        if cyc { input_ok = false; fail("input-object-cycle", format!("{start} reaches itself through non-null fields")); }
+    }
+    // --- no user-defined name starts with `__`
+    for (tn, t) in &s.types {
+        if !t.is_built_in() && tn.starts_with("__") { fail("reserved-name", format!("type {tn}")); }
+        for (fname, _, args) in fields_of(t) {
+            if fname.starts_with("__") { fail("reserved-name", format!("field {tn}.{fname}")); }
+            for (an, _, _) in args { if an.starts_with("__") { fail("reserved-name", format!("argument {tn}.{fname}({an})")); } }
+        }
+        if let ExtendedType::Enum(e) = t { for v in e.values.keys() { if v.starts_with("__") { fail("reserved-name", format!("enum value {tn}.{v}")); } } }
+        if let ExtendedType::InputObject(io) = t { for f in io.fields.keys() { if f.starts_with("__") { fail("reserved-name", format!("input field {tn}.{f}")); } } }
+    }
+    for (dn, d) in &s.directive_definitions {
+        if dn.starts_with("__") { fail("reserved-name", format!("directive @{dn}")); }
+        for a in &d.arguments { if a.name.starts_with("__") { fail("reserved-name", format!("directive argument @{dn}({})", a.name)); } }
+    }
+    // --- the type map contains exactly the referenced built-in scalars
+    let refs = referenced_names(s);
+    let mut scalars_ok = true;
+    for b in BUILTIN_SCALARS {
+        let present = s.types.contains_key(b);
+        let referenced = refs.contains(b);
+        if present != referenced { scalars_ok = false; fail("builtin-scalars-exact", format!("{b}: present={present} referenced={referenced}")); }
+    }
+    inv.roots = roots_ok; inv.impl_kind = impl_kind; inv.trans = trans; inv.input = input_ok; inv.scalars = scalars_ok;
+    inv
+}
+
+/// the abstract schema for the Lean evaluators
+fn export(s: &Schema) -> Vec<String> {
+    let idx: BTreeMap<&str, usize> = s.types.keys().enumerate().map(|(i, n)| (n.as_str(), i)).collect();
+    let sd = &s.schema_definition;
+    let mut undefined: Vec<String> = vec![];
+    let mut out = vec![];
+    for r in [&sd.query, &sd.mutation, &sd.subscription] {
+        out.push(match r {
+            None => "=-".to_string(),
+            Some(c) => match s.types.get(c.name.as_str()) {
+                Some(ExtendedType::Object(_)) => format!("=o{}", idx[c.name.as_str()]),
+                Some(_) => format!("=k{}", idx[c.name.as_str()]),
+                None => { let p = undefined.iter().position(|u| *u == c.name.as_str()).unwrap_or_else(|| { undefined.push(c.name.to_string()); undefined.len() - 1 }); format!("=u{}", 100000 + p) }
+            },
+        });
+    }
+    let mut undef_ifaces: Vec<String> = vec![];
+    let imp: Vec<String> = s.types.values().map(|t| {
+        let l: Vec<String> = implements_of(t).iter().map(|i| match idx.get(i.as_str()) {
+            Some(k) => k.to_string(),
+            // distinct undefined names stay distinct
+            None => { let p = undef_ifaces.iter().position(|u| u == i).unwrap_or_else(|| { undef_ifaces.push(i.clone()); undef_ifaces.len() - 1 }); (100000 + p).to_string() }
+        }).collect();
+        format!("{}:{}", if matches!(t, ExtendedType::Interface(_)) { "I" } else { "O" }, l.join(","))
+    }).collect();
+    out.push(enc(&imp.join("|")));
+    let inputs: Vec<(&str, &apollo_compiler::schema::InputObjectType)> = s.types.iter().filter_map(|(n, t)| if let ExtendedType::InputObject(io) = t { Some((n.as_str(), &**io)) } else { None }).collect();
+    let iidx: BTreeMap<&str, usize> = inputs.iter().enumerate().map(|(i, (n, _))| (*n, i)).collect();
+    let ig: Vec<String> = inputs.iter().map(|(_, io)| io.fields.values().map(|f| match &*f.ty {
+        Type::NonNullNamed(m) => format!("N{}", iidx.get(m.as_str()).copied().unwrap_or(999999)),
+        t => format!("n{}", iidx.get(t.inner_named_type().as_str()).copied().unwrap_or(999999)),
+    }).collect::<Vec<_>>().join(",")).collect();
+    out.push(if inputs.is_empty() { "=-".to_string() } else { enc(&ig.join("|")) });
+    let ts: Vec<String> = s.types.iter().map(|(n, t)| {
+        let mut refs: Vec<String> = vec![];
+        for (_, ty, args) in fields_of(t) { refs.push(ty.inner_named_type().to_string()); for (_, at, _) in args { refs.push(at.inner_named_type().to_string()); } }
+        if let ExtendedType::InputObject(io) = t { for f in io.fields.values() { refs.push(f.ty.inner_named_type().to_string()); } }
+        format!("{n};{};{};{}", if t.is_built_in() { "b" } else { "u" }, if matches!(t, ExtendedType::Scalar(_)) { "s" } else { "o" }, refs.join(","))
+    }).collect();
+    out.push(enc(&ts.join("|")));
+    let drefs: Vec<String> = s.directive_definitions.values().flat_map(|d| d.arguments.iter().map(|a| a.ty.inner_named_type().to_string())).collect();
+    out.push(enc(&drefs.join(",")));
+    out
+}
+
+fn bits(i: &Inv) -> String {
+    [i.roots, i.impl_kind, i.trans, i.input, i.scalars].iter().map(|b| if *b { '1' } else { '0' }).collect()
+}
+
+/// one schema text: build, validate, check the invariants on every `Valid<Schema>`, emit stream cases
+pub fn examine(ctx: &mut Ctx, src: &str, label: &str) -> bool {
+    let built = match catch(|| Schema::parse(src, "s.graphql")) {
+        Err(p) => { ctx.fail("schema-build-panic", src, &p); return false; }
+        Ok(Err(_)) => { ctx.stat("build_errors"); return false; }
+        Ok(Ok(s)) => s,
+    };
+    // the built (not yet validated) schema: two-sided material for the stream
+    let inv0 = invariants(&built);
+    let b0 = bits(&inv0);
+    ctx.stat(&format!("built_bits:{b0}"));
+    ctx.case("c15.inv", &export(&built), &b0);
+    let valid = match catch(|| built.validate()) {
+        Err(p) => { ctx.fail("schema-validation-panic", src, &p); return false; }
+        Ok(Err(_)) => { ctx.stat("built_but_invalid"); return false; }
+        Ok(Ok(v)) => v,
+    };
+    ctx.stat("valid_schemas");
+    ctx.stat(&format!("valid_via:{label}"));
+    let inv = invariants(&valid);
+    for (k, d) in &inv.failures { ctx.fail(&format!("invariant:{k}"), src, &format!("Valid<Schema> violates the clause: {d} (generator: {label})")); }
+    let b = bits(&inv);
+    ctx.case("c15.inv", &export(&valid), &b);
+    ctx.nontrivial(src);
+    // shape statistics of what the accepted schemas exercise
+    let s: &Schema = &valid;
+    if s.types.values().any(|t| !implements_of(t).is_empty()) { ctx.stat("valid_with_implements"); }
+    if s.types.values().any(|t| implements_of(t).len() > 1) { ctx.stat("valid_with_transitive_or_multiple_implements"); }
+    if s.types.values().any(|t| matches!(t, ExtendedType::InputObject(_))) { ctx.stat("valid_with_input_objects"); }
+    if s.schema_definition.mutation.is_some() || s.schema_definition.subscription.is_some() { ctx.stat("valid_with_several_roots"); }
+    let present = BUILTIN_SCALARS.iter().filter(|b| s.types.contains_key(**b)).count();
+    ctx.stat(&format!("valid_builtin_scalars_present_{present}"));
+    true
+}
+
+/// move `d` one definition closer to `base`; false when they print the same set of definitions
+fn repair_step(d: &mut Vec<GDef>, base: &[GDef], r: &mut Rng) -> bool {
+    let bp: Vec<String> = base.iter().map(print_def).collect();
+    let dp: Vec<String> = d.iter().map(print_def).collect();
+    let extra: Vec<usize> = (0..d.len()).filter(|i| !bp.contains(&dp[*i])).collect();
+    let missing: Vec<usize> = (0..base.len()).filter(|i| !dp.contains(&bp[*i])).collect();
+    if extra.is_empty() && missing.is_empty() { return false; }
+    if !extra.is_empty() && (missing.is_empty() || r.chance(1, 2)) {
+        let i = extra[r.below(extra.len())];
+        d.remove(i);
+    } else {
+        let i = missing[r.below(missing.len())];
+        let at = r.below(d.len() + 1);
+        d.insert(at, base[i].clone());
+    }
+    true
+}
+
+pub fn run(ctx: &mut Ctx) {
+    const FIXED: &[&str] = &[
+        "type Query { a: Int }",
+        "type Query { a: String }",
+        "type Query { a: Q2 } type Q2 { b: Boolean }",
+        "schema { query: Q mutation: M } type Q { a: ID } type M { f(x: Float): Q }",
+        "type Query { a: Int } input A { b: [A!]! c: A d: B! } input B { x: Int! }",
+        "interface A { x: Int } interface B implements A { x: Int } type Query implements B & A { x: Int! }",
+        "interface A { x(a: Int): [A] } type Query implements A { x(a: Int, b: Int! = 1, c: String): [Query!]! }",
+        "union U = Query type Query { a: U }",
+        "directive @d(a: ID) on OBJECT type Query @d(a: 1) { a: Boolean }",
+        "scalar S enum E { V } type Query { a(s: S, e: E): S }",
+        "type Query { a: Int } extend scalar Int @specifiedBy(url: \"u\")",
+        // invalid ones: no Valid<Schema> may come out
+        "type Q { a: Int }",
+        "schema { query: Q mutation: Q } type Q { a: Int }",
+        "type Query { a: Int } input A { b: B! } input B { a: A! }",
+        "interface A { x: Int } interface B implements A { x: Int } type Query implements B { x: Int }",
+        "type Query { __a: Int }",
+        "type Query { a: Nope }",
+    ];
+    for s in FIXED { examine(ctx, s, "fixed"); }
+    let repo = std::env::var("VERIF_REPO").unwrap_or_else(|_| "/repo".into());
+    for dir in ["diagnostics", "ok"] {
+        let Ok(rd) = std::fs::read_dir(format!("{repo}/crates/apollo-compiler/test_data/{dir}")) else { continue };
+        let mut files: Vec<_> = rd.filter_map(|e| e.ok()).map(|e| e.path()).filter(|p| p.extension().is_some_and(|x| x == "graphql")).collect();
+        files.sort();
+        for f in files {
+            let Ok(s) = std::fs::read_to_string(&f) else { continue };
+            if s.len() > 20_000 { continue; }
+            let Ok(doc) = apollo_compiler::ast::Document::parse(s, "seed.graphql") else { continue };
+            let t: String = doc.definitions.iter().filter(|d| !matches!(d, apollo_compiler::ast::Definition::OperationDefinition(_) | apollo_compiler::ast::Definition::FragmentDefinition(_))).map(|d| format!("{d}\n")).collect();
+            if !t.is_empty() { ctx.stat("repo_seed_files"); examine(ctx, &t, "seed"); }
+        }
+    }
+    let n = if ctx.thorough { 6000 } else { 600 };
+    for round in 0..n {
+        let base = random_valid(ctx);
+        examine(ctx, &print_doc(&base), "generated");
+        // single mutants that may still validate
+        for m in 0..N_MUTATIONS {
+            if !ctx.thorough && (m + round) % 4 != 0 { continue; }
+            let mut d = base.clone();
+            if mutate(&mut d, &mut ctx.rng, m) == "noop" { continue; }
+            let text = print_doc(&d);
+            if examine(ctx, &text, "mutant") { continue; }
+            // invalid: keep mutating until it validates (bounded walk): pile up one or two more
+            // mutations, then alternate random mutations with steps that move one definition back
+            // towards the valid base (drop a foreign definition / re-insert a missing one)
+            if !ctx.rng.chance(1, 2) { continue; }
+            for _ in 0..ctx.rng.below(3) { let m2 = ctx.rng.below(N_MUTATIONS); mutate(&mut d, &mut ctx.rng, m2); }
+            for step in 0..10 {
+                if ctx.rng.chance(1, 4) {
+                    let m2 = *ctx.rng.pick(&[58usize, 31, 29, 34, 33, 57, 32, 35, 36, 19, 30]);
+                    if mutate(&mut d, &mut ctx.rng, m2) == "noop" { continue; }
+                } else if !repair_step(&mut d, &base, &mut ctx.rng) { break; }
+                let t = print_doc(&d);
+                ctx.stat("walk_steps");
+                if examine(ctx, &t, "walk") { ctx.stat(&format!("walk_reached_valid_after_{}", step + 1)); if ctx.rng.chance(1, 2) { break; } }
+            }
+        }
+    }
+}
